@@ -41,6 +41,12 @@ CLAIMS = {
         "note": "Trusted: the reference renderers in harness/src/props/c15.rs and std's float formatting. Byte formatters: above 2^53 the value's f64 image is accepted for the choice of unit and the last digit (the statement does not fix the arithmetic).",
         "technique": "runtime monitoring: differential oracle against an independent reference renderer, panics caught",
     },
+    "C12": {
+        "text": "Exploration with an exhaustive slice: '{msg:<align><W>[!]}' rendered through a real bar for W 0..=40 x 4 alignments x truncation on/off x 5 content classes (ascii, multi-byte 1-column, double-width, ANSI-coloured, combining marks) x shorter/exact/longer content (enumerated completely), then sampled widths up to 65535 and {wide_msg} lines on 1..120-column terminals; the field is measured in columns three independent ways (own ANSI stripper + unicode-width, console::measure_text_width, cursor column after feeding the text to VScreen) and compared with a column-based reference for padding side, kept range and exact width.",
+        "design_ref": "DESIGN.md §4 C12",
+        "note": "Trusted: the column reference in harness/src/props/c12.rs and the unicode-width tables. Double-width content: W-1 columns are accepted where exactly W cannot be kept; combining marks are compared on base characters.",
+        "technique": "runtime monitoring: differential oracle on rendered fields measured in terminal columns",
+    },
 }
 
 ALL = [f"C{n:02d}" for n in range(1, 20)]
